@@ -19,6 +19,7 @@ enum { VD_I32 = 1, VD_U32, VD_I64, VD_U64, VD_PTR, VD_CUSTOM, VD_U8 };
 
 #define VF_NOEPOCH 1   /* changes of this field do not count as global progress */
 #define VF_NOSCHED 2   /* accesses are not scheduling points (still diffed)     */
+#define VF_WAKEIDLE 4  /* a change of this field wakes idle (polling) threads      */
 
 typedef struct vrt_field {
   const char* name;
